@@ -451,6 +451,8 @@ func ruleNestingBound(p *Prog, a *Anchors, r *Report, rule string) {
 		}
 		if hasDepth {
 			r.OK(key, p.InstrPos(in), "passes its own nesting depth + 1")
+		} else if g := countsItself(p, ci.Common().StaticCallee(), targets, 0); kind == "execute" && g != nil {
+			r.OK(key, p.InstrPos(in), "%s counts the nested execution itself (a counter of the rendering stepped and compared with a constant, refusing with an error)", p.FuncName(g))
 		} else if kind == "load" && topLevel(f).Name() == "Execute" && topLevel(f).Signature.Recv() != nil {
 			// a template compiled at execution time (computed include) starts a new compile; the execution depth bounds the cycle
 			r.OK(key, p.InstrPos(in), "compiled at execution time: bounded by the execution depth of the call that follows")
@@ -531,4 +533,66 @@ func ruleNestingBound(p *Prog, a *Anchors, r *Report, rule string) {
 func isIntType(T types.Type) bool {
 	b, ok := T.Underlying().(*types.Basic)
 	return ok && b.Info()&types.IsInteger != 0
+}
+
+// countsItself: f, or a target function it statically hands the work on to, passes a depth step before it executes:
+// it steps a counter and compares it with a constant on an edge that only returns errors, and every invocation of a
+// node's Execute in it stands behind that step.
+func countsItself(p *Prog, f *ssa.Function, targets map[*ssa.Function]string, depth int) *ssa.Function {
+	if f == nil || f.Blocks == nil || depth > 4 {
+		return nil
+	}
+	var execs []ssa.Instruction
+	for _, b := range f.Blocks {
+		for _, in := range b.Instrs {
+			ci, ok := in.(ssa.CallInstruction)
+			if !ok {
+				continue
+			}
+			if ci.Common().IsInvoke() && ci.Common().Method.Name() == "Execute" {
+				execs = append(execs, in)
+			} else if c := ci.Common().StaticCallee(); c != nil && c.Name() == "Execute" && c.Signature.Recv() != nil && p.InPkg(c) {
+				execs = append(execs, in) // the document node's Execute, called on its concrete type
+			}
+		}
+	}
+	if len(execs) > 0 {
+		for _, e := range execs {
+			// behind a step on the nested route: the step may be taken only when a calling context was handed over
+			if !behindDepthStepOr(p, e, func(c ssa.Value, pol bool) bool {
+				x, eq, isNil := condIsNilTest(c)
+				_, isParam := x.(*ssa.Parameter)
+				return isNil && isParam && eq == pol // the `from == nil` edge: not a nested execution
+			}) {
+				return nil
+			}
+		}
+		return f
+	}
+	for _, b := range f.Blocks {
+		for _, in := range b.Instrs {
+			if ci, ok := in.(ssa.CallInstruction); ok && ci.Common().StaticCallee() != nil {
+				if _, isT := targets[ci.Common().StaticCallee()]; isT && ci.Common().StaticCallee() != f {
+					if g := countsItself(p, ci.Common().StaticCallee(), targets, depth+1); g != nil {
+						return g
+					}
+				}
+			}
+		}
+	}
+	return nil
+}
+
+// behindDepthStepOr: every path to c passes a depth step (as behindDepthStep) or an edge for which alt holds.
+func behindDepthStepOr(p *Prog, c ssa.Instruction, alt EdgePred) bool {
+	f := c.Parent()
+	return Guarded(c, func(cond ssa.Value, pol bool) bool {
+		if alt(cond, pol) {
+			return true
+		}
+		if _, ok := cond.(*ssa.BinOp); !ok {
+			return false
+		}
+		return !pol && refusingCompare(p, f, cond)
+	})
 }
